@@ -5,7 +5,7 @@
 // Oracle = the property: an explicit id is honoured exactly when it is in 1..=channel_max and not open (else UnavailableChannelId with that
 // id - 0 included); an automatic id is some id in 1..=channel_max that is not open, or ExhaustedChannelIds exactly when all are open; a
 // closed channel's id is available again; the Channel handed back carries the id that went out in Channel.Open.
-// Bound: 3 tables x 400 operations (VERIF_SEED varies the sequence).
+// Bound: 3 tables x 400 operations (VERIF_SEED varies the sequence), plus the corners of the full id range (channel_max 65535 / 0 = no limit).
 include!("/verif/witness/_common/live_broker.rs");
 use crate::{Auth, Channel, Connection, ConnectionOptions, ConnectionTuning, Error};
 use std::collections::BTreeMap;
@@ -71,6 +71,44 @@ fn run(max: u16, seed: u64) {
         std::mem::forget(ch);
     }
     connection.close().unwrap();
+}
+
+// the full id range: negotiated channel_max 65535 (announced as 65535 or as 0 = no limit); the ids at the corners of the range and at byte
+// boundaries are opened by number, used, closed and opened again; 0 is refused
+fn run_full_range(server_max: u16) {
+    let what = format!("server channel_max={}", server_max);
+    let ctl = Handle::new();
+    (ctl.0).0.lock().unwrap().tune = Some(connection_::Tune { channel_max: server_max, frame_max: 131_072, heartbeat: 0 });
+    let mut connection = Connection::insecure_open_stream(LiveBroker::new(ctl.clone()), ConnectionOptions::<Auth>::default().heartbeat(0), ConnectionTuning::default()).expect("handshake");
+    match connection.open_channel(Some(0)) {
+        Err(Error::UnavailableChannelId { channel_id: 0 }) => {}
+        other => panic!("{}: open_channel(Some(0)): {:?}", what, other.map(|c| c.channel_id()).map_err(|e| e.to_string())),
+    }
+    for round in 0..2 {
+        let mut open = Vec::new();
+        for &id in &[65535u16, 65534, 32768, 32767, 256, 255, 1] {
+            let ch = connection.open_channel(Some(id)).unwrap_or_else(|e| panic!("{}: round {}: open_channel(Some({})): {}", what, round, id, e));
+            assert_eq!(ch.channel_id(), id, "{}", what);
+            ch.qos(0, 1, false).unwrap_or_else(|e| panic!("{}: round {}: channel {} unusable: {}", what, round, id, e));
+            open.push(ch);
+        }
+        let auto = connection.open_channel(None).unwrap_or_else(|e| panic!("{}: open_channel(None): {}", what, e));
+        assert!(![65535u16, 65534, 32768, 32767, 256, 255, 1].contains(&auto.channel_id()) && auto.channel_id() != 0, "{}: automatic id {} is open already", what, auto.channel_id());
+        auto.qos(0, 1, false).unwrap_or_else(|e| panic!("{}: automatic channel {} unusable: {}", what, auto.channel_id(), e));
+        auto.close().unwrap_or_else(|e| panic!("{}: close: {}", what, e));
+        for ch in open {
+            let id = ch.channel_id();
+            ch.close().unwrap_or_else(|e| panic!("{}: round {}: closing channel {}: {}", what, round, id, e));
+        }
+    }
+    connection.close().unwrap_or_else(|e| panic!("{}: closing the connection: {}", what, e));
+}
+
+#[test]
+fn verif_sweep_c10_corners_of_the_full_id_range() {
+    for &server_max in &[65535u16, 0] {
+        with_watchdog(format!("full id range, server channel_max={}", server_max), 20, move || run_full_range(server_max));
+    }
 }
 
 #[test]
